@@ -285,12 +285,14 @@ func Universe(o UniverseOpts) *Schema {
 		td := &TypeDef{Kind: KObject, Name: name, Fields: common()}
 		// per-type differences: a field only this type has, and a covariant implementation of Named.buddy
 		switch name {
+		// nick (a field of Named): a struct field on A and C, a METHOD (and nothing else) on B - implementers of one interface
+		// field bound to different kinds of Go members
 		case "A":
-			td.Fields = append(td.Fields, f("onlyA", N("String")), f("buddy", N("A")))
+			td.Fields = append(td.Fields, f("onlyA", N("String")), f("buddy", N("A")), f("nick", N("String")))
 		case "B":
-			td.Fields = append(td.Fields, f("onlyB", N("Int")), f("buddy", N("B")))
+			td.Fields = append(td.Fields, f("onlyB", N("Int")), f("buddy", N("B")), m("nick", N("String")))
 		case "C":
-			td.Fields = append(td.Fields, f("onlyC", N("Boolean")), f("buddy", N("Named")))
+			td.Fields = append(td.Fields, f("onlyC", N("Boolean")), f("buddy", N("Named")), f("nick", N("String")))
 		}
 		for _, n := range named {
 			if n == name {
@@ -316,7 +318,7 @@ func Universe(o UniverseOpts) *Schema {
 		{Kind: KObject, Name: "Mutation", Fields: []*FieldDef{
 			m("set", N("String"), &ArgDef{Name: "s", Type: NN(N("String"))}), f("a", N("A")), f("i", N("Int")),
 		}},
-		{Kind: KInterface, Name: "Named", Fields: []*FieldDef{f("name", N("String")), f("i", N("Int")), f("kid", N("A")), m("echo", N("String"), echoArgs()...), f("buddy", N("Named"))}},
+		{Kind: KInterface, Name: "Named", Fields: []*FieldDef{f("name", N("String")), f("i", N("Int")), f("kid", N("A")), m("echo", N("String"), echoArgs()...), f("buddy", N("Named")), f("nick", N("String"))}},
 		obj("A"), obj("B"), obj("C"),
 		{Kind: KObject, Name: "V", Fields: []*FieldDef{f("id", N("ID")), f("vid", N("String")), m("vm", N("String"))}},
 		{Kind: KUnion, Name: "AB", Members: members},
